@@ -16,6 +16,9 @@ theorem FailsAt.fails {g : G} {ts e : List Tok} (h : FailsAt g ts e) : Fails g t
   obtain ⟨f, m, h⟩ := h
   exact ⟨f, e, m, h⟩
 
+/-- replace the value by an equal one -/
+theorem Parses.s_to {g : G} {ts r : List Tok} {v v' : Tree} (h : Parses g ts r v) (e : v = v') : Parses g ts r v' := e ▸ h
+
 /-! ### `opt` -/
 
 theorem Parses.s_opt {a : G} {ts r : List Tok} {v : Tree} (h : Parses a ts r v) : Parses (.opt a) ts r v := by
